@@ -363,7 +363,12 @@ fn compile_inputs(tx: &tir::Tx) -> Result<Vec<primitives::TransactionInput>, Err
         .inputs
         .iter()
         .flat_map(|x| coercion::expr_into_utxo_refs(&x.utxos))
-        .flatten()
+        .flat_map(|mut refs| {
+            // the utxos of one block come out of a hash set: without an order of their own the
+            // same template would compile to different bytes from one run to the next
+            refs.sort_by(|a, b| (&a.txid, a.index).cmp(&(&b.txid, b.index)));
+            refs
+        })
         .map(|x| {
             Ok(primitives::TransactionInput {
                 transaction_id: coercion::bytes_into_hash::<32>(x.txid.as_slice())?,
